@@ -506,6 +506,7 @@ func (g *gen) families18() {
 			g.zipMultiFamily(b)
 		}
 	}
+	g.optionalFieldsFamily()
 	// C + G: seeded search, until the budget is used
 	g.randomFamily(small, big)
 }
@@ -983,6 +984,104 @@ func (g *gen) zipForgedFamily(b base) {
 			arch := forgedZip(b.data, method, real, csz, crc)
 			g.run(&Case{Family: "zip-forged-header", Base: fmt.Sprintf("%s|%s compressed=%d", b.name, rd, csz), Reader: rd, ZipFail: -1, Data: arch,
 				Faults: []medium.Fault{{Kind: "zip-forged-size"}}}, true)
+		}
+	}
+}
+
+// optionalFieldsFamily: ONNX fields an inference runtime may ignore or start to honour. Model-local functions (valid,
+// nested, self-recursive, mutually recursive in cycles of 2 and 3, called from the graph or not), and initializers whose
+// data lives in another file (present, truncated, a git-LFS pointer, missing; offsets and lengths inside, at, beyond the
+// end, negative, absent).
+func (g *gen) optionalFieldsFamily() {
+	fsets := map[string][]mb.Function{
+		"valid":              {{Name: "F", Body: []string{"Relu"}}},
+		"nested":             {{Name: "F", Body: []string{"Relu", "G"}}, {Name: "G", Body: []string{"Tanh"}}},
+		"self-recursive":     {{Name: "F", Body: []string{"Relu", "F"}}},
+		"mutually-recursive": {{Name: "F", Body: []string{"G"}}, {Name: "G", Body: []string{"Relu", "F"}}},
+		"cycle-of-3":         {{Name: "F", Body: []string{"G"}}, {Name: "G", Body: []string{"H"}}, {Name: "H", Body: []string{"Abs", "F"}}},
+		"named-like-an-op":   {{Name: "Relu", Body: []string{"Tanh"}}},
+		"empty-body":         {{Name: "F", Body: nil}},
+		"deep-chain": func() []mb.Function {
+			var fs []mb.Function
+			for i := 0; i < 200; i++ {
+				fs = append(fs, mb.Function{Name: fmt.Sprintf("F%d", i), Body: []string{fmt.Sprintf("F%d", i+1)}})
+			}
+			fs = append(fs, mb.Function{Name: "F200", Body: []string{"Relu"}})
+			fs[0].Name = "F"
+			fs[0].Body = []string{"F1"}
+			return fs
+		}(),
+	}
+	var names []string
+	for n := range fsets {
+		names = append(names, n)
+	}
+	sort.Strings(names)
+	for _, n := range names {
+		for _, dom := range []string{"", "local", "ai.onnx"} {
+			for pos := -1; pos < 3; pos++ {
+				m := ChainModel()
+				fs := append([]mb.Function{}, fsets[n]...)
+				for i := range fs {
+					fs[i].Domain = dom
+				}
+				m.Functions = fs
+				if pos >= 0 {
+					nodes := append([]mb.Node{}, m.Nodes...)
+					nodes[pos].Op, nodes[pos].Domain = "F", dom
+					if pos == 0 {
+						nodes[pos].In = []string{"x"}
+					} else {
+						nodes[pos].In = nodes[pos].In[:1]
+					}
+					m.Nodes = nodes
+				}
+				g.rawCase("optional-fields", fmt.Sprintf("functions %s domain=%q called at %d", n, dom, pos), m.Bytes(), "bytes", true, "")
+			}
+		}
+	}
+	// external data
+	payload := make([]byte, 129)
+	for i := range payload {
+		payload[i] = byte(i)
+	}
+	lfs := []byte("version https://git-lfs.github.com/spec/v1\noid sha256:4d7a214614ab2935c943f9e0ff69d22eadbb8f32b1258daaa5e2ca24d17e2393\nsize 12345\n")
+	sidecars := map[string]map[string][]byte{
+		"present": {"weights.bin": payload}, "truncated": {"weights.bin": payload[:5]}, "lfs-pointer": {"weights.bin": lfs}, "empty": {"weights.bin": {}},
+		"missing": {"other.bin": payload}, "in-subdir": {"data/weights.bin": payload},
+	}
+	var snames []string
+	for n := range sidecars {
+		snames = append(snames, n)
+	}
+	sort.Strings(snames)
+	entries := [][][2]string{
+		{{"location", "weights.bin"}}, {{"location", "weights.bin"}, {"offset", "0"}, {"length", "24"}}, {{"location", "weights.bin"}, {"offset", "4096"}},
+		{{"location", "weights.bin"}, {"offset", "-1"}}, {{"location", "weights.bin"}, {"offset", "128"}, {"length", "24"}}, {{"location", "weights.bin"}, {"offset", "0"}, {"length", "-4"}},
+		{{"location", "weights.bin"}, {"offset", "9223372036854775807"}}, {{"location", "weights.bin"}, {"offset", "18446744073709551616"}, {"length", "1"}}, {{"location", "weights.bin"}, {"offset", "x"}},
+		{{"location", "weights.bin"}, {"length", "99999999999"}}, {{"location", "data/weights.bin"}, {"offset", "100"}}, {{"location", "../weights.bin"}}, {{"location", "/etc/hostname"}},
+		{{"location", ""}}, {{"location", "."}}, {{"location", "model.onnx"}, {"offset", "7"}}, {{"offset", "0"}, {"length", "24"}}, {{"location", "weights.bin"}, {"location", "other.bin"}, {"offset", "130"}},
+		{{"location", "weights.bin"}, {"checksum", "00"}, {"offset", "129"}}, {{"location", "weights.bin"}, {"offset", "129"}, {"length", "0"}},
+	}
+	for _, sn := range snames {
+		for ei, ent := range entries {
+			for _, inline := range []bool{false, true} {
+				if !g.mine() || g.stop {
+					continue
+				}
+				m := ChainModel()
+				mp := m.Proto()
+				tp := mp.Graph.Initializer[0]
+				tp.DataLocation = onnx.TensorProto_EXTERNAL
+				if !inline {
+					tp.RawData, tp.FloatData = nil, nil
+				}
+				for _, kv := range ent {
+					tp.ExternalData = append(tp.ExternalData, &onnx.StringStringEntryProto{Key: kv[0], Value: kv[1]})
+				}
+				data, _ := proto.MarshalOptions{Deterministic: true}.Marshal(mp)
+				g.run(&Case{Family: "optional-fields", Base: fmt.Sprintf("external-data sidecar=%s entries#%d inline=%v", sn, ei, inline), Reader: "file", ZipFail: -1, Data: data, Sidecars: sidecars[sn]}, true)
+			}
 		}
 	}
 }
